@@ -62,12 +62,27 @@ def checked (env : Env P O T V) (i : Internals P O V) (ptrIn : Bool) (v : V) : O
   let r := runChecksOn env i.ptrSchema ptrIn i.checks v
   if r.issues = [] then .okVal r.val else .errChecks r.issues
 
+/-- `overwriteChecks` (modifiers.go:131-143, /repo 4f7c1d7): the value-rewriting checks, in order. -/
+def overwritesOnly : List (Check P O) → List (Check P O)
+  | [] => []
+  | .overwrite o :: cs => .overwrite o :: overwritesOnly cs
+  | .pred _ _ _ :: cs => overwritesOnly cs
+
+/-- What `processModifiersCore` does with a default since /repo 4f7c1d7: a default bypasses validation, only the
+    overwrite checks are handed to `ApplyChecks`. -/
+def onDefault (env : Env P O T V) (i : Internals P O V) (d : V) : Out V :=
+  checked env { i with checks := overwritesOnly i.checks } false d
+
+/-- Before 4f7c1d7: ALL checks ran on the default as soon as one of them was an overwrite. -/
+def legacyOnDefault (env : Env P O T V) (i : Internals P O V) (d : V) : Out V :=
+  checked env i false d
+
 /-- `processModifiersCore` on a nil input followed by the `handled` / prefault continuation of
     `ParsePrimitive` (no engine-level transform on primitives). -/
 def nilPath (env : Env P O T V) (i : Internals P O V) : Out V :=
   match i.dv, i.df with
-  | some d, _ => if hasOverwrite i.checks then checked env i false d else .okVal d
-  | none, some d => if hasOverwrite i.checks then checked env i false d else .okVal d
+  | some d, _ => if hasOverwrite i.checks then onDefault env i d else .okVal d
+  | none, some d => if hasOverwrite i.checks then onDefault env i d else .okVal d
   | none, none =>
     match i.pv, i.pf with
     | some p, _ => checked env i false p
